@@ -163,6 +163,9 @@ class Concretizer:
             for f in sorted(names, key=str):
                 v = self.heap.data.get((o, f))
                 if v is None:
+                    sh = self.I.field_shape(o, f)
+                    if isinstance(sh, (Init, Lazy)):
+                        continue        # never touched on this path: do not materialise (an Init may fork)
                     try:
                         v = self.I.read_field(o, f, heap=self.heap)
                     except Exception:       # noqa
